@@ -12,6 +12,7 @@
 (*  input  iF plaintext file  iE valid .wenc made with key K  iMissing     *)
 (*         iLong existing 190-character path  iNoArg (-i without argument) *)
 (*         iProc readable file in a directory that cannot take new files   *)
+(*         iLen122 / iLen123 existing paths of exactly 122 / 123 characters*)
 (*  output oO creatable path  oBad path in a directory that does not exist *)
 (*  key    kK right key  kW well-formed wrong key  kShort(23) kBadChar     *)
 (*         kNoPad(24, no '=') kOnePad(24, one '=') kLong(28)               *)
@@ -24,7 +25,7 @@ EXTENDS Naturals, Sequences, FiniteSets
 ModeTok == {"e", "d", "v", "V", "h", "le", "ld", "lv", "en", "dn", "vn"}
 ModeOf(t) == CASE t \in {"e", "le", "en"} -> "e" [] t \in {"d", "ld", "dn"} -> "d" [] t \in {"v", "lv", "vn"} -> "v"
                [] t = "V" -> "V" [] t = "h" -> "h"
-Tokens == ModeTok \cup {"n", "iF", "iE", "iMissing", "iLong", "iProc", "iNoArg", "oO", "oBad", "kK", "kW", "kShort", "kBadChar",
+Tokens == ModeTok \cup {"n", "iF", "iE", "iMissing", "iLong", "iLen122", "iLen123", "iProc", "iNoArg", "oO", "oBad", "kK", "kW", "kShort", "kBadChar",
                         "kNoPad", "kOnePad", "kLong", "kHigh", "c2", "c5", "c100", "c256", "c260", "cabc", "h1", "h3", "h256", "x", "stray"}
 S0 == [mode |-> "u", ct |-> FALSE, ht |-> FALSE, in |-> "none", out |-> "none", key |-> "none", quiet |-> FALSE, err |-> FALSE, may |-> FALSE]
 
@@ -36,7 +37,8 @@ Step(s, t) ==
   ELSE IF t = "n" THEN [s EXCEPT !.quiet = TRUE]
   ELSE IF t = "iF" THEN [s EXCEPT !.in = "F"]
   ELSE IF t = "iE" THEN [s EXCEPT !.in = "E"]
-  ELSE IF t = "iLong" THEN [s EXCEPT !.in = "L"]
+  ELSE IF t \in {"iLong", "iLen123"} THEN [s EXCEPT !.in = "L"]      \* 123 + ".wenc" + NUL does not fit 128 bytes
+  ELSE IF t = "iLen122" THEN [s EXCEPT !.in = "F"]                      \* the longest path whose default output name fits
   ELSE IF t = "iProc" THEN [s EXCEPT !.in = "R"]
   ELSE IF t \in {"iMissing", "iNoArg", "oBad", "kShort", "kBadChar", "kNoPad", "kOnePad", "kLong", "kHigh", "c5", "c100", "c256", "c260", "h3", "h256", "x"}
        THEN [s EXCEPT !.err = TRUE]
